@@ -90,7 +90,8 @@ def make_array(spec):
     if d in ('const_inexact', 'const_exact'):
         return np.full(spec['n'], spec['a'], dtype=float)
     if d == 'const_huge':
-        return np.full(spec['n'], spec['sign'] * spec['m'] * 10.0 ** spec['e'], dtype=float)
+        # at most 4e307, so that the difference of any two samples (and of a sample and a cached mean) stays finite
+        return np.full(spec['n'], spec['sign'] * min(spec['m'] * 10.0 ** spec['e'], 4e307), dtype=float)
     if d == 'int_const':
         a = spec['a'] % 100 if spec['dtype'] == 'uint8' else spec['a']
         return np.full(spec['n'], a, dtype=spec['dtype'])
